@@ -18,9 +18,11 @@ DEVIATIONS = ["slot_search_off_by_one", "trunc_keeps_conflict_slot", "trunc_keep
 
 def gen_behaviours(tier, seed):
     stats = {}
+    # several TLC JVMs run side by side: cap each heap (default would be a quarter of the RAM each)
+    os.environ.setdefault("JAVA_TOOL_OPTIONS", "-Xmx4g")
     quick = tier == "quick"
     exh_cfg = "RaftStorage.exh.quick.cfg" if quick else "RaftStorage.exh.thorough.cfg"
-    nsim_procs, nsim = (2, 20) if quick else (8, 100)
+    nsim_procs, nsim = (2, 20) if quick else (6, 120)
     with cf.ThreadPoolExecutor(2 + nsim_procs) as ex:
         f_exh = ex.submit(vlib.run_tlc, "RaftStorageMC", exh_cfg, workers=max(2, vlib.NCPU - 2 - nsim_procs),
                           timeout=600 if quick else 1700, coverage=False)
